@@ -90,9 +90,11 @@ def run_case(case, tier):
         if case["reserve2"]:
             # make sure at least two files reserve ids
             k = 0
+            used = {d["id"] for d in prog["desc"]["defs"].values() if d.get("id") is not None} | set(prog["desc"]["reserved"])
+            base = next(b for b in range(8800, 200, -20) if not any(x in used for x in range(b, b + 20)))   # a window free of generated ids
             for rel in list(prog["files"]):
                 if "_RESERVED_" not in prog["files"][rel] and k < 2:
-                    rid = 8800 + 10 * k
+                    rid = base + 10 * k
                     prog["files"][rel] = prog["files"][rel].replace("message_defs:\n", f"message_defs:\n  _RESERVED_:\n    id: [{rid}, {rid + 2} - {rid + 4}]\n", 1)
                     if f"[{rid}," in prog["files"][rel]:
                         prog["desc"]["reserved"] += [rid, rid + 2, rid + 3, rid + 4]
